@@ -244,6 +244,23 @@ CHECKS['C06'] = dict(
     technique='fault injection / crash-point enumeration by syscall-prefix '
               'replay over generated runs, validated with real SIGKILLs')
 
+CHECKS['C04'] = dict(
+    category='exploration', design_ref='DESIGN.md §5 (C04)',
+    text='Statistical exploration over seed ensembles: Hypothesis draws '
+         'cells (closed-form problem x configuration incl. networks, '
+         'periodic, sampler pool, split_threshold 1, discard on/off) and '
+         'each cell is run with 48 (quick) / 192 (thorough) independent '
+         'seeds to convergence; per run the reported error must cover the '
+         'analytic log Z and posterior means, per cell a Student-t test '
+         '(|t|<=6.5) of log Z error, posterior means and sum of shell '
+         'volumes minus one; an exceedance is confirmed with fresh seeds '
+         'and twice the ensemble before it counts.',
+    note='Sees biases of about 1 % (quick) / 0.3 % (thorough) in log Z; '
+         'well-converged regime only (>=300 live points, medium-size '
+         'network); keeping the exploration phase gets a 0.02 allowance.',
+    technique='property-based testing (Hypothesis) over seed ensembles with '
+              'analytic oracle and t-tests + confirmation stage')
+
 NOT_YET = {}
 
 
